@@ -271,6 +271,13 @@ def jobs(tier, seed):
             js.append({'harness': 'res', 'weight': 100,
                        'cfg': {'kind': kind, 'capacity': 2, 'scripts': ['hold', 'hold', 'hold'], 'sorts': 'real',
                                'fixed': {'0': [2, 1], '1': [2, 1], '2': [1, 1]}, 'same_arrival': [0, 1]}})
+        if kind == 'preempt':
+            # a preempting request queued behind a better-ranked non-preempting waiter that gives up (or leaves its with-block):
+            # the eviction then happens during somebody else's cancel, and must still name the preemptor
+            for mid in ('giveup', 'with'):
+                js.append({'harness': 'res', 'weight': 100,
+                           'cfg': {'kind': kind, 'capacity': 1, 'scripts': ['hold', mid, 'hold'], 'sorts': 'int',
+                                   'fixed': {'0': [2, 0], '1': [0, 0], '2': [1, 1]}}})
         # a user of a with-block interrupted from outside at a symbolic instant (before, at and after its grant)
         for sc, tgt in ((('hold', 'with', 'hold'), 1), (('hold', 'with'), 1), (('with', 'with', 'hold'), 1)):
             if kind == 'preempt' and len(sc) == 3 and tier == 'quick':
